@@ -9,3 +9,4 @@ pub mod model;
 pub mod ops;
 pub mod oracle_commit;
 pub mod oracle_revoke;
+pub mod oracle_persist;
